@@ -425,6 +425,38 @@ def pred_malvar_constant(inp):
     return ok, f'uniform mosaic {v} demosaicks to values in [{rgb.min()!r}, {rgb.max()!r}]'
 
 
+COLOUR_SHAPES = [(5, 5), (6, 6), (5, 8), (6, 9), (7, 7), (8, 6), (10, 12), (12, 7), (16, 16)]
+
+
+def _colour_mosaic(m, n, cfa, colour):
+    """mosaic of a scene of one colour (r, g, b): each site holds the level of the colour that lives there"""
+    nat = _native(cfa.lower())
+    lev = {'r': colour[0], 'g1': colour[1], 'g2': colour[1], 'b': colour[2]}
+    img = np.empty((m, n))
+    for name in PL:
+        r0, c0 = nat[name]
+        img[r0::2, c0::2] = lev[name]
+    return img
+
+
+def pred_malvar_colour(inp):
+    """theorem malvar_uniform_colour: a mosaic of ONE colour (r, g, b different) demosaicks to (r, g, b) at every sample two or
+    more samples from the border (there the 5x5 window never meets ndimage's reflect rule), in every channel"""
+    by = _impl()[1]
+    m, n = inp['shape']
+    col = [float(x) for x in inp['colour']]
+    rgb = by.demosaic_malvar(_colour_mosaic(m, n, inp['cfa'], col), inp['cfa'])
+    if rgb.shape != (m, n, 3):
+        return False, f'shape {rgb.shape}'
+    inner = rgb[2:m - 2, 2:n - 2]
+    for k, nm in enumerate(('red', 'green', 'blue')):
+        if not np.allclose(inner[..., k], col[k], rtol=1e-12, atol=1e-12 * max(abs(c) for c in col)):
+            bad = np.argwhere(~np.isclose(inner[..., k], col[k], rtol=1e-12, atol=1e-12 * max(abs(c) for c in col)))[0]
+            return False, (f'mosaic of the uniform colour {col}: {nm} channel reads {inner[bad[0], bad[1], k]!r} at interior sample '
+                           f'({bad[0] + 2}, {bad[1] + 2}), expected {col[k]!r}')
+    return True, f'{inner.shape[0] * inner.shape[1]} interior samples'
+
+
 def pred_wb(inp):
     by = _impl()[1]
     img = np.asarray(inp['img'], dtype=float)
@@ -646,6 +678,7 @@ def _layout_cases(rng, m, n, quick):
 PREDS = {'dn_range': pred_dn_range, 'dn_monotone': pred_dn_monotone, 'dn_formula': pred_dn_formula, 'dn_frames': pred_dn_frames,
          'bin': pred_bin, 'tile': pred_tile, 'bin_tile_adjoint': pred_adjoint, 'expose_bin': pred_expose_bin, 'bayer_roundtrip': pred_bayer_roundtrip,
          'bayer_composite': pred_bayer_composite, 'malvar_native': pred_malvar_native, 'malvar_constant': pred_malvar_constant,
+         'malvar_colour': pred_malvar_colour,
          'wb_prescale': pred_wb, 'wb_safe': pred_wb_safe, 'wb_postscale': pred_wb_post, 'dn_real_rng': pred_dn_real_rng,
          'expose_draws': pred_expose_draws, 'mode_spellings': pred_mode_spellings, 'layouts': pred_layouts}
 
@@ -1040,6 +1073,28 @@ def correspondence(ctx):
                        {'shape': [m // 2, n // 2, 3], 'gains': g3, 'hot': hot}, True, f'hot{hot}')
             _check(ctx, 'malvar_constant', {'shape': [m, n], 'cfa': cfa, 'level': 137.5}, {'shape': [m, n], 'cfa': cfa}, True, cfa)
 
+    # Malvar on mosaics of ONE colour (hypotheses of theorem malvar_uniform_colour: an interior exists, m, n >= 5): the predicate
+    # on the real code, and the same mosaic through the model (all samples, border included)
+    for (m, n) in COLOUR_SHAPES[:(None if ctx.thorough else 6)]:
+        for cfa in ('rggb', 'bggr'):
+            for rep in range(ctx.scale(2, 5)):
+                col = [float(x) for x in (rng.integers(1, 4000, size=3) if rep else np.array([900, 250, 40])[rng.permutation(3)])]
+                ucfa = cfa.upper() if rep % 2 else cfa
+                desc = {'shape': [m, n], 'cfa': ucfa, 'colour': col}
+                _check(ctx, 'malvar_colour', {'shape': [m, n], 'cfa': ucfa, 'colour': col}, desc, True,
+                       f'{cfa}/{"odd" if (m % 2 or n % 2) else "even"}/interior{(m - 4) * (n - 4)}')
+                if rep == 0:
+                    img = _colour_mosaic(m, n, cfa, col)
+
+                    def chk(row, img=img, cfa=cfa, desc=desc, m=m, n=n):
+                        model = np.moveaxis(_rats(row).reshape(3, m, n), 0, 2)
+                        ctx.case('malvar.colour', desc, tag=cfa)
+                        got = by.demosaic_malvar(img.copy(), cfa)
+                        if got.shape != model.shape or not np.allclose(got, model, rtol=1e-12, atol=1e-9):
+                            k = np.unravel_index(int(np.argmax(np.abs(got - model))), model.shape) if got.shape == model.shape else None
+                            ctx.disagree('malvar', desc, f'{got[k] if k else got.shape} at {k}', f'{model[k] if k else model.shape}')
+                    ask(f'malvar {cfa} {m} {n} {_il(img)}', chk)
+
     rows = C.lean_driver('C16', lines)
     for row, fn in zip(rows, todo):
         if row.strip() == 'bad-op':
@@ -1155,6 +1210,13 @@ def search(ctx, hints):
                 ok, detail = _run_pred(name, inp)
                 if not ok:
                     return found(name, inp, detail)
+    for (m, n) in COLOUR_SHAPES[:4]:
+        for cfa in ('rggb', 'bggr'):
+            for col in ([100.0, 10.0, 1.0], [3.0, 50.0, 700.0]):
+                inp = {'shape': [m, n], 'cfa': cfa, 'colour': col}
+                ok, detail = _run_pred('malvar_colour', inp)
+                if not ok:
+                    return found('malvar_colour', inp, detail)
     return None
 
 
@@ -1164,7 +1226,7 @@ def replay(inp):
     if name not in PREDS:
         print('no replay routine for item', name)
         return False
-    brief = {k: v for k, v in inp.items() if k in ('cfg', 'factor', 'cfa', 'frames', 'gains', 'saturation', 'shape', 'level', 'dtype', 'seed', 'kind', 'fn', 'layouts', 'maps')}
+    brief = {k: v for k, v in inp.items() if k in ('cfg', 'factor', 'cfa', 'frames', 'gains', 'saturation', 'shape', 'level', 'colour', 'dtype', 'seed', 'kind', 'fn', 'layouts', 'maps')}
     print(f'replaying {name}: {brief}')
     if name.startswith('dn_') and name != 'dn_real_rng':
         try:
